@@ -18,8 +18,10 @@
    of sys.modules insertions/removals (a glue that imports something).
    Whether the call is guarded, whether the lock is taken and whether lookups pop are NOT
    hard-wired: they are the [cfg] record regenerated from the source (gen/SrcFacts.v).
-   Fields named g_* are ghost (history variables): no step reads them to decide anything
-   (P_Glue.ghost_irrelevant... see P_Glue.v). *)
+   builtin_glue(n)(f), rule of /repo 96b79e1: n already pending -> AssertionError; n imported ->
+   f runs at once unless the module still carries its own glue (then f is dropped); else pending.
+   Fields named g_* are ghost (history variables): they occur only in the g_* argument
+   positions of [mkst], no step reads them to decide anything. *)
 Require Import Base.
 From SS.gen Require Import SrcFacts.
 
@@ -46,12 +48,12 @@ Fixpoint m_set (m : list (nat * nat)) (n o : nat) : list (nat * nat) :=
   | (k, v) :: r => if k =? n then (n, o) :: r else (k, v) :: m_set r n o
   end.
 Fixpoint m_del (m : list (nat * nat)) (n : nat) : list (nat * nat) :=
-  match m with [] => [] | (k, v) :: r => if k =? n then r else (k, v) :: m_del r n end.
+  match m with [] => [] | (k, v) :: r => if k =? n then m_del r n else (k, v) :: m_del r n end.
 
 Inductive event :=
   | EvCallM (o n : nat) (disc : option nat)   (* module glue of object o, visit of name n; disc (ghost) = built-in popped and dropped *)
   | EvCallB (f n : nat) (cur : option nat)    (* built-in f, visit of name n; cur (ghost) = object under n at the visit *)
-  | EvImm (f n : nat)                         (* built-in f run at registration time (module already imported) *)
+  | EvImm (f n o : nat)                       (* built-in f run at registration time: module n already imported, o (ghost) = its object *)
   | EvWarn (modkind : bool) (n : nat)
   | EvAssert (n : nat)                        (* registration refused: name already pending *)
   | EvRet (t : nat) (ok : bool).              (* add_glue_as_needed returned (ok) / an exception propagated *)
@@ -79,26 +81,30 @@ Record st := mkst {
   g_since_cache : bool;            (* a removal/replacement happened since the snapshot the cache value stems from *)
   g_since_snap : bool;             (* ... since the snapshot of the scan in progress *)
   g_nrem : nat;                    (* number of removals/replacements so far *)
-  g_ever : list nat;               (* names ever inserted *)
-  g_bad : bool;                    (* some registration named a module that had already been inserted *)
+  g_started : bool;                (* some thread has entered add_glue_as_needed *)
+  g_late : bool;                   (* some registration happened after the first extraction had started *)
   g_snap_cache : list (nat * nat); (* the snapshot the cache value stems from *)
   g_snap_scan : list (nat * nat)   (* the snapshot of the scan in progress *)
 }.
 
 Definition init (w : world) (scanned : bool) : st :=
   mkst [] [] [] (if scanned then w_base w else 0) None (fun _ => PIdle) [] 0
-       false false 0 [] false [] [].
+       false false 0 false false [] [].
 
 Definition set_thr (s : st) (t : nat) (p : pc) : st :=
   mkst (mods s) (popped s) (pend s) (cache s) (lock s)
        (fun t' => if t' =? t then p else thr s t') (log s) (nreg s)
-       (g_since_cache s) (g_since_snap s) (g_nrem s) (g_ever s) (g_bad s) (g_snap_cache s) (g_snap_scan s).
+       (g_since_cache s) (g_since_snap s) (g_nrem s) (g_started s) (g_late s) (g_snap_cache s) (g_snap_scan s).
+Definition start_thr (s : st) (t : nat) : st :=
+  mkst (mods s) (popped s) (pend s) (cache s) (lock s)
+       (fun t' => if t' =? t then PEnter else thr s t') (log s) (nreg s)
+       (g_since_cache s) (g_since_snap s) (g_nrem s) true (g_late s) (g_snap_cache s) (g_snap_scan s).
 Definition add_log (s : st) (e : event) : st :=
   mkst (mods s) (popped s) (pend s) (cache s) (lock s) (thr s) (e :: log s) (nreg s)
-       (g_since_cache s) (g_since_snap s) (g_nrem s) (g_ever s) (g_bad s) (g_snap_cache s) (g_snap_scan s).
+       (g_since_cache s) (g_since_snap s) (g_nrem s) (g_started s) (g_late s) (g_snap_cache s) (g_snap_scan s).
 Definition set_lock (s : st) (l : option nat) : st :=
   mkst (mods s) (popped s) (pend s) (cache s) l (thr s) (log s) (nreg s)
-       (g_since_cache s) (g_since_snap s) (g_nrem s) (g_ever s) (g_bad s) (g_snap_cache s) (g_snap_scan s).
+       (g_since_cache s) (g_since_snap s) (g_nrem s) (g_started s) (g_late s) (g_snap_cache s) (g_snap_scan s).
 Definition release (s : st) (t : nat) : st :=
   match lock s with Some t' => if t' =? t then set_lock s None else s | None => s end.
 
@@ -108,17 +114,21 @@ Definition apply_ir (i : irop) (s : st) : st :=
       let dirty := match m_get (mods s) n with Some o' => negb (o' =? o) | None => false end in
       mkst (m_set (mods s) n o) (popped s) (pend s) (cache s) (lock s) (thr s) (log s) (nreg s)
            (g_since_cache s || dirty) (g_since_snap s || dirty)
-           (if dirty then S (g_nrem s) else g_nrem s) (n :: g_ever s) (g_bad s) (g_snap_cache s) (g_snap_scan s)
+           (if dirty then S (g_nrem s) else g_nrem s) (g_started s) (g_late s) (g_snap_cache s) (g_snap_scan s)
   | IRem n =>
       match m_get (mods s) n with
       | Some _ =>
           mkst (m_del (mods s) n) (popped s) (pend s) (cache s) (lock s) (thr s) (log s) (nreg s)
-               true true (S (g_nrem s)) (g_ever s) (g_bad s) (g_snap_cache s) (g_snap_scan s)
+               true true (S (g_nrem s)) (g_started s) (g_late s) (g_snap_cache s) (g_snap_scan s)
       | None => s
       end
   end.
 
 Definition apply_irs (l : list irop) (s : st) : st := fold_left (fun s i => apply_ir i s) l s.
+
+(* "_stackscope_install_glue_" in sys.modules[n].__dict__ (an object without __dict__: False) *)
+Definition has_own (w : world) (s : st) (o : nat) : bool :=
+  match glue_of w o with Some _ => negb (mem_nat o (popped s)) | None => false end.
 
 Definition apply_env (w : world) (e : envop) (s : st) : st :=
   match e with
@@ -126,16 +136,20 @@ Definition apply_env (w : world) (e : envop) (s : st) : st :=
   | EReg n =>
       let f := nreg s in
       let s1 := mkst (mods s) (popped s) (pend s) (cache s) (lock s) (thr s) (log s) (S (nreg s))
-                     (g_since_cache s) (g_since_snap s) (g_nrem s) (g_ever s)
-                     (g_bad s || mem_nat n (g_ever s)) (g_snap_cache s) (g_snap_scan s) in
+                     (g_since_cache s) (g_since_snap s) (g_nrem s) (g_started s)
+                     (g_late s || g_started s) (g_snap_cache s) (g_snap_scan s) in
       match m_get (pend s) n with
       | Some _ => add_log s1 (EvAssert n)
       | None =>
           match m_get (mods s) n with
-          | Some _ => apply_irs (feff (bfn_of w f)) (add_log s1 (EvImm f n))
+          | Some o =>
+              (* already imported: run now, unless the module still carries its own glue
+                 (then the built-in is dropped: neither run nor made pending) *)
+              if has_own w s o then s1
+              else apply_irs (feff (bfn_of w f)) (add_log s1 (EvImm f n o))
           | None =>
               mkst (mods s1) (popped s1) (pend s1 ++ [(n, f)]) (cache s1) (lock s1) (thr s1) (log s1) (nreg s1)
-                   (g_since_cache s1) (g_since_snap s1) (g_nrem s1) (g_ever s1) (g_bad s1) (g_snap_cache s1) (g_snap_scan s1)
+                   (g_since_cache s1) (g_since_snap s1) (g_nrem s1) (g_started s1) (g_late s1) (g_snap_cache s1) (g_snap_scan s1)
           end
       end
   end.
@@ -157,7 +171,7 @@ Definition visit (c : cfg) (w : world) (t nm : nat) (todo : list nat) (n : nat) 
   let pend' := if c_pop c then m_del (pend s) nm else pend s in
   let popped' := match mf with Some o => if c_pop c then o :: popped s else popped s | None => popped s end in
   let s1 := mkst (mods s) popped' pend' (cache s) (lock s) (thr s) (log s) (nreg s)
-                 (g_since_cache s) (g_since_snap s) (g_nrem s) (g_ever s) (g_bad s) (g_snap_cache s) (g_snap_scan s) in
+                 (g_since_cache s) (g_since_snap s) (g_nrem s) (g_started s) (g_late s) (g_snap_cache s) (g_snap_scan s) in
   set_thr s1 t (if some_or mf bf then PCall nm mf bf cur todo n else PScan todo n).
 
 Definition abort (t : nat) (s : st) : st :=
@@ -187,7 +201,7 @@ Definition call (c : cfg) (w : world) (t nm : nat) (mf bf cur : option nat) (tod
 
 Definition tstep (c : cfg) (w : world) (t : nat) (s : st) : st :=
   match thr s t with
-  | PIdle | PDone _ => set_thr s t PEnter
+  | PIdle | PDone _ => start_thr s t
   | PEnter => set_thr s t (PRead (w_base w + length (mods s)))
   | PRead l =>
       if l =? cache s then add_log (set_thr s t (PDone true)) (EvRet t true)
@@ -201,11 +215,11 @@ Definition tstep (c : cfg) (w : world) (t : nat) (s : st) : st :=
       else set_thr s t PLocked
   | PLocked =>
       let s1 := mkst (mods s) (popped s) (pend s) (cache s) (lock s) (thr s) (log s) (nreg s)
-                     (g_since_cache s) false (g_nrem s) (g_ever s) (g_bad s) (g_snap_cache s) (mods s) in
+                     (g_since_cache s) false (g_nrem s) (g_started s) (g_late s) (g_snap_cache s) (mods s) in
       set_thr s1 t (PScan (map fst (mods s)) (w_base w + length (mods s)))
   | PScan [] n =>
       let s1 := mkst (mods s) (popped s) (pend s) n (lock s) (thr s) (log s) (nreg s)
-                     (g_since_snap s) (g_since_snap s) (g_nrem s) (g_ever s) (g_bad s) (g_snap_scan s) (g_snap_scan s) in
+                     (g_since_snap s) (g_since_snap s) (g_nrem s) (g_started s) (g_late s) (g_snap_scan s) (g_snap_scan s) in
       add_log (set_thr (release s1 t) t (PDone true)) (EvRet t true)
   | PScan (nm :: todo) n => visit c w t nm todo n s
   | PCall nm mf bf cur todo n => call c w t nm mf bf cur todo n s
@@ -297,7 +311,7 @@ Definition erase (e : event) : oevent :=
   match e with
   | EvCallM o n _ => OCallM o n
   | EvCallB f n _ => OCallB f n
-  | EvImm f n => OImm f n
+  | EvImm f n _ => OImm f n
   | EvWarn b n => OWarn b n
   | EvAssert n => OAssert n
   | EvRet t ok => ORet t ok
@@ -344,7 +358,7 @@ Definition case_ok (k : glue_case) : bool :=
 Definition mismatches (l : list glue_case) : list nat := false_indices 0 (map case_ok l).
 
 Definition is_call (e : event) : bool :=
-  match e with EvCallM _ _ _ | EvCallB _ _ _ | EvImm _ _ => true | _ => false end.
+  match e with EvCallM _ _ _ | EvCallB _ _ _ | EvImm _ _ _ => true | _ => false end.
 
 Definition count_nontrivial (l : list glue_case) : nat :=
   count_true (map (fun k => existsb is_call (log (fst (model_run k)))) l).
